@@ -283,7 +283,8 @@ class C11(Check):
             'subscription points before/between/in the same turn as puts; optional enclosing until(), an outside '
             'consumer, final close; Task.cancel injected at sampled (thorough: all) boundaries of the consumers. '
             'non-trivial = >=2 subscriptions with a consumer interrupted/cancelled/leaving early while others '
-            'continue, or different subscription points; distinct by sha1(program+faults).')
+            'continue, or different subscription points; distinct by sha1(program+faults). Also long streams (140-300 messages through '
+            'one subscription; a consumer lagging behind, one joining late).')
     budgets = {'quick': dict(examples=2000, procs=4), 'thorough': dict(examples=16000, procs=16)}
     level_text = ('For every consumer of every generated history (and every injected cancel) the received sequence is '
                   'compared with the exact expected one: all accepted puts between its subscription and its leaving, '
